@@ -650,8 +650,9 @@ pub fn e2_spec(id: &str, tier: &str) -> Option<crate::e2::E2Spec> {
             let mut scens = Vec::new();
             for id in ["C16", "C17", "C18", "C24", "C08"] {
                 if let Some(sp) = e2_spec(id, "quick") {
+                    let stride = if !quick { 1 } else if id == "C16" || id == "C17" { 6 } else if id == "C08" || id == "C18" { 2 } else { 1 };
                     for (i, mut sc) in sp.scens.into_iter().enumerate() {
-                        if quick && i % 2 == 1 {
+                        if i % stride != 0 {
                             continue;
                         }
                         sc.name = format!("{id}/{}", sc.name);
@@ -921,10 +922,14 @@ fn c23_borrowed(tier: &str) -> Vec<crate::e1mem::Borrowed> {
     for (id, faults) in [("C01", false), ("C05", false), ("C06", false), ("C07", false), ("C08", false), ("C10", false), ("C11", false), ("C12", false), ("C13", false), ("C15", false), ("C22", true)] {
         if let Some(mut spec) = e1_spec(id, "quick") {
             if quick {
-                spec.depth = spec.depth.saturating_sub(1).max(2);
-                // every third program of the larger sets
+                // every third program of the larger sets, and the depth reduced until the set has
+                // at most ~40 000 histories (the whole quick tier then completes without a cap)
                 if spec.programs.len() > 12 {
                     spec.programs = spec.programs.into_iter().enumerate().filter(|(i, _)| i % 3 == 0).map(|(_, p)| p).collect();
+                }
+                let size = |d: usize, spec: &Spec| -> f64 { spec.programs.iter().map(|p| ((spec.alphabet)(p).len() as f64).powi(d as i32)).sum() };
+                while spec.depth > 2 && size(spec.depth, &spec) > 40_000.0 {
+                    spec.depth -= 1;
                 }
                 if faults {
                     spec.depth = 2;
